@@ -578,3 +578,19 @@ _amend("C01", "Non-trivial: >=2 formats",
        "share one byte stream for the whole run: the stream must stay parseable, every frame is on a negotiated channel and carries the next written "
        "packet of its media with the written payload, nothing is missing unless a queue-full error was reported, and responses come in request order "
        "(non-trivial there: >=100 frames and >=3 responses). Non-trivial: >=2 formats")
+_amend("C19", "(control) a session in state set-up / play / record / paused",
+       "(server-mcast, where the machine has a multicast-capable interface) a reader set up with multicast delivery: its receiver reports come "
+       "from its address and the group's RTCP port; RR/SR/BYE/RTP/garbage sent to the group's RTCP port from the same address with another port and "
+       "from another address must cause no RTCP callback and must not keep the silent session from timing out. (control) a session in state set-up / "
+       "play / record / paused")
+_amend("C12", "protocol automatic/UDP/TCP/multicast, plain or TLS,",
+       "protocol automatic/UDP/TCP/multicast, a fifth of the clients configured with the RTSP-over-HTTP or the WebSocket tunnel (the scripted server "
+       "speaks both; half of those cases add a tunnel-level rule: the GET, POST or upgrade request answered with another status and the connection kept "
+       "open, garbage, close, silence, a truncated answer, a wrong Sec-WebSocket-Accept, no upgrade, or one of eight hostile WebSocket frames), plain or TLS,")
+_amend("C17", "every SETUP of the clients asks for SAVP,",
+       "every RTCP packet is longer than its first header declares (a packet that ends there carries no SRTCP trailer: the RTCP report periods of server "
+       "and clients are set to 40 ms through a verif hook, so the reports the library generates by itself are among them), a reader whose packets nobody "
+       "altered reports no undecodable packet, every SETUP of the clients asks for SAVP,")
+_amend("C17", "RTSPS worlds with a reader over UDP, TCP or automatic",
+       "RTSPS worlds with a reader over UDP, TCP, multicast (on the machine's multicast-capable interface, the groups being read by a passive member; "
+       "skipped where there is none) or automatic")
